@@ -16,6 +16,10 @@ CHECKS = {
    technique="TLA+ spec IntEval: TLC exhaustive + simulated program generation, replay on bgv.Evaluator, TLC trace validation of the recorded run",
    text="TLC checks the evaluator specification (value/scale/level/degree/error rules with the raw=m*scale refinement invariant DecodeExact) exhaustively on a small instance; every behaviour TLC generates (all depth-2/3 programs over small pools, thousands of simulated longer programs over all operand kinds, levels, scales, both modes, three key configurations) is executed on the real bgv.Evaluator and the recorded trace (decrypted raw slots, scale, level, degree, error/panic) must be a behaviour of the specification.",
    note="Trusted: TLC, the specification (transcribed from the doc comments of schemes/bgv/evaluator.go), lattigo's Decryptor/Encoder used as projection, math/big for the constants q_i mod t. Values are exact only over the model's 4-entry vectors, which the harness expands to all slots and re-checks per slot."),
+ "C06": dict(spec="ApproxEval / ApproxEvalGen / ApproxEvalTrace", design="DESIGN.md §5 C06",
+   technique="TLA+ spec ApproxEval (exact dyadic Gaussian messages, symbolic scales, levels, degrees, errors): TLC-generated programs replayed on ckks.Evaluator; TLC trace validation",
+   text="TLC enumerates every single call from four preset register files (degree-2 products, rescaled and up-scaled operands, unequal scales and degrees, three key configurations) and simulates longer programs over all operand kinds (ciphertext, plaintext, seven scalar types, four vector types, short vectors), on sparse and full packing, the conjugate-invariant ring and a two-primes-per-rescale parameter set; the real evaluator's decoded values (12 bits absolute/relative), log-scale, level, degree and error outcomes must be a behaviour of the specification, which tracks scales symbolically (2^a / prod q_i^e_i).",
+   note="Trusted: TLC, the ApproxEval specification (Appendix B.2 of DESIGN.md), lattigo Decryptor/Encoder as projection. Precision losses below 12 bits and mix-ups of same-size primes in the recorded scale are not visible. Additions with ambiguous scale ratios (between 2^-14 and 2^20) are outside the generated contract."),
  "C08": dict(spec="Stream / StreamGen / StreamTrace", design="DESIGN.md §5 C08",
    technique="TLA+ spec Stream (wire of segments, entry points, receiver prior state, chunking, faults): TLC exhausts the model and generates the scenarios; real (de)serialisation traces validated by TLC",
    text="TLC model-checks the stream model (composability, prefix consumption) and enumerates every scenario (object x write entry x read entry x prior receiver state x chunking; multi-object streams by simulation); each scenario and a fault sweep (truncation at every offset class, single-byte header corruption, writers failing at sampled offsets, JSON codecs) run on 29 serialisable type classes / 79 values of the real library, and the recorded sizes, counts, digests, consumed bytes, equality and error/panic/allocation outcomes must be a behaviour of the specification.",
@@ -29,8 +33,8 @@ CHECKS = {
    text="TLC checks Reconstruct and ListingIndependent for every N<=3, t<=N, injective point assignment, secrets/coefficients from pools and every active listing; the real Thresholdizer/Combiner run on toy fields (N=16, q in {97,193,12289}) for all 1<=t<=N<=4, all active subsets and up to 6 listing orders, every share, aggregated share and additive share being recomputed by TLC, plus real-size runs (points up to 2^64-1) checked for the reconstruction identity, listing independence and refusal of t-1 parties.",
    note="Trusted: TLC, the Threshold specification, uint64 reduction of the public points modulo q in the harness. Points are chosen distinct modulo every modulus."),
  "C09": dict(spec="IntEval (frame) ...", design="DESIGN.md §5 C09",
-   technique="TLA+ spec IntEval with frame condition: TLC-generated programs with all aliasing patterns replayed on poisoned evaluators, TLC trace validation",
-   text="Same generated programs as C05, with the frame condition switched on in the trace specification: after every call every register other than the designated output, and every non-ciphertext operand (*big.Int, slices, plaintexts) must be bit-for-bit unchanged; outputs aliased with op0/op1 and outputs that previously held a larger degree or level must produce the model's (alias-independent) value; all evaluator scratch buffers are filled with garbage before every call so residue dependence shows as a wrong value.",
+   technique="TLA+ specs IntEval and ApproxEval with frame condition: TLC-generated programs with all aliasing patterns replayed on poisoned bgv/ckks evaluators, TLC trace validation",
+   text="Same generated programs as C05 and C06 (bgv and ckks evaluators), with the frame condition switched on in the trace specification: after every call every register other than the designated output, and every non-ciphertext operand (*big.Int, slices, plaintexts) must be bit-for-bit unchanged; outputs aliased with op0/op1 and outputs that previously held a larger degree or level must produce the model's (alias-independent) value; all evaluator scratch buffers are filled with garbage before every call so residue dependence shows as a wrong value.",
    note="Trusted: as C05; bit-for-bit comparison uses MarshalBinary snapshots of the registers. In-place operations (DropLevel, MatchScalesAndLevel, accumulators) are exempt for their designated arguments only."),
 }
 
